@@ -22,12 +22,14 @@ fn spaces(tier: Tier) -> Vec<Space> {
     let mut v = vec![];
     let mut s = SyncSys::new(2);
     s.c12 = true;
+    s.c01 = false;
     s.updates = small_updates();
     s.urgencies = vec![Urg::None, Urg::Low, Urg::High];
     s.avoids = vec![false, true];
     v.push(Space { name: "R2-urgency", sys: s, depth: if q { 5 } else { 7 } });
     let mut s = SyncSys::new(2);
     s.c12 = true;
+    s.c01 = false;
     s.updates = vec![("p".into(), Some("a".into()), 1), ("q".into(), Some("a".into()), 1)];
     s.big_budget = if q { 1 } else { 2 };
     s.deletes = false;
@@ -35,6 +37,7 @@ fn spaces(tier: Tier) -> Vec<Space> {
     v.push(Space { name: "R2-big-urgency", sys: s, depth: if q { 6 } else { 8 } });
     let mut s = SyncSys::new(2);
     s.c12 = true;
+    s.c01 = false;
     s.tasks = vec![1, 2];
     s.updates = odd_updates();
     s.urgencies = vec![Urg::None, Urg::High];
@@ -42,6 +45,8 @@ fn spaces(tier: Tier) -> Vec<Space> {
     if !q {
         let mut s = SyncSys::new(3);
         s.c12 = true;
+        s.c01 = false;
+    s.c01 = false;
         s.updates = vec![("p".into(), Some("a".into()), 1), ("p".into(), Some("b".into()), 2)];
         s.urgencies = vec![Urg::None, Urg::Low, Urg::High];
         s.avoids = vec![false, true];
@@ -74,6 +79,8 @@ fn many_tasks(rep: &Report, n: usize) {
     let sys = {
         let mut s = SyncSys::new(1);
         s.c12 = true;
+        s.c01 = false;
+    s.c01 = false;
         s
     };
     let before = w.obs[0].clone();
